@@ -347,10 +347,18 @@ func (p *pipe) drainWritten(k int) {
 	}
 }
 
+// predrain: a sequential tracker may have consumed any prefix of the written reports that are
+// queued NOW. It is called before the harness offers to receive a seen list, so everything it
+// consumes was enqueued before that hand-over; once a seen list is received it is applied at once
+// (the batcher runs on concurrently and may already have queued later reports, which a real
+// tracker could not have read before that seen list).
+func (p *pipe) predrain() {
+	if p.mode == "stepped" {
+		p.drainWritten(p.rng.Intn(len(p.written) + 1))
+	}
+}
+
 func (p *pipe) applySeen(s []*progress.Seen) {
-	// a sequential tracker has consumed some prefix of the queued written reports when it
-	// receives the seen list: choose that prefix
-	p.drainWritten(p.rng.Intn(len(p.written) + 1))
 	for _, e := range s {
 		p.ledgerTrace = append(p.ledgerTrace, fmt.Sprintf("ledgermon seen %s %s %d %d 1", unname(e.Transaction), unname(e.TimeBasedKey), e.TotalMsgs, e.CommitWalStart))
 	}
@@ -390,6 +398,7 @@ func (p *pipe) readAcks() {
 func (p *pipe) waitBatcher(expectFilter bool) string {
 	timeout := time.After(10 * time.Second)
 	for {
+		p.predrain()
 		var seenCh chan []*progress.Seen
 		if p.mode == "stepped" {
 			seenCh = p.seen
@@ -458,6 +467,7 @@ func (p *pipe) tick() string {
 	}()
 	timeout := time.After(10 * time.Second)
 	for {
+		p.predrain()
 		var seenCh chan []*progress.Seen
 		if p.mode == "stepped" {
 			seenCh = p.seen
@@ -938,7 +948,9 @@ func idFromJson(b []byte) int {
 	return n
 }
 
-func pipelineGen(r *Rng, tier string) Case {
+func pipelineGen(r *Rng, tier string) Case { return pipelineGenOpt(r, tier, true) }
+
+func pipelineGenOpt(r *Rng, tier string, redeliveries bool) Case {
 	kind := "kinesis"
 	if r.Chance(50) {
 		kind = fmt.Sprintf("s3:%d", Pick(r, []int{1, 2, 3, 5, 50}))
@@ -982,7 +994,7 @@ func pipelineGen(r *Rng, tier string) Case {
 	ntx := r.Range(1, 8)
 	for txn := 1; txn <= ntx; txn++ {
 		deliveries := 1
-		if mode == "stepped" && r.Chance(10) {
+		if mode == "stepped" && redeliveries && r.Chance(10) {
 			deliveries = 2
 		}
 		for d := 0; d < deliveries; d++ {
@@ -1050,19 +1062,24 @@ func pipelineValid(lines []string) bool {
 			if key <= cur || txn < lastTxn {
 				return false
 			}
+			// a delivery without COMMIT may only be followed by the redelivery of the same transaction
+			if !closed && txn != lastTxn {
+				return false
+			}
 			cur, closed, lastTxn = key, false, txn
 		case "COMMIT":
-			if key != cur || closed {
+			if key != cur || closed || txn != lastTxn {
 				return false
 			}
 			closed = true
 		default:
-			if key != cur || closed {
+			if key != cur || closed || txn != lastTxn {
 				return false
 			}
 		}
 	}
-	return true
+	// PostgreSQL delivers its transactions completely: the stream does not end inside one
+	return closed
 }
 
 func pipelineMonitor(lines, outs []string, m *Model) []Violation {
@@ -1158,7 +1175,7 @@ func init() {
 // ---- pipefault: one unrecoverable fault injected into the assembled pipeline (C17) ----
 
 func pipefaultGen(r *Rng, tier string) Case {
-	base := pipelineGen(r, tier)
+	base := pipelineGenOpt(r, tier, false) // no redeliveries: keeps finding F1 (C01) out of the fail-stop check
 	// small retry budget so that a dead sink exhausts it; no redeliveries (keeps C01 noise out)
 	cfg := strings.Fields(base.Lines[0])
 	cfg[10] = "stepped"
